@@ -249,6 +249,70 @@ func runWorkload(t *testing.T, seed int64) workload {
 	return w
 }
 
+type postResult struct {
+	Ran        bool
+	Produced   int
+	Err        string
+	Missing    []string
+	Contiguous bool
+}
+
+// postLife produces to the recovered cluster and reads it again without restarting it.
+func postLife(addrs []string, groups []string, before state) (res postResult) {
+	res.Ran, res.Contiguous = true, true
+	if _, ok := before.Records["t/0"]; !ok {
+		res.Ran = false // the topic itself did not survive (crash before its creation was durable): nothing to produce to
+		return
+	}
+	ctx, cancel := context.WithTimeout(context.Background(), 20*time.Second)
+	defer cancel()
+	p, err := kgo.NewClient(kgo.SeedBrokers(addrs...), kgo.DisableClientMetrics(), kgo.RecordPartitioner(kgo.ManualPartitioner()), kgo.DefaultProduceTopic("t"))
+	if err != nil {
+		res.Err = err.Error()
+		return
+	}
+	var want []string
+	for i := 0; i < 2; i++ {
+		for part := int32(0); part < 2; part++ {
+			if _, ok := before.Records[fmt.Sprintf("t/%d", part)]; !ok {
+				continue
+			}
+			v := fmt.Sprintf("post-%d-%d", part, i)
+			if err := p.ProduceSync(ctx, &kgo.Record{Partition: part, Value: []byte(v)}).FirstErr(); err != nil {
+				res.Err = "produce after recovery: " + err.Error()
+				p.Close()
+				return
+			}
+			want = append(want, v)
+		}
+	}
+	p.Close()
+	res.Produced = len(want)
+	after := readState(addrs, groups)
+	if after.Err != "" {
+		res.Err = "reading after recovery and " + fmt.Sprint(len(want)) + " further acknowledged produces: " + after.Err
+		return
+	}
+	got := recordSet(after)
+	for v := range recordSet(before) {
+		want = append(want, v)
+	}
+	for _, v := range want {
+		if _, ok := got[v]; !ok {
+			res.Missing = append(res.Missing, v)
+		}
+	}
+	sort.Strings(res.Missing)
+	for _, offs := range after.Offsets {
+		for i := 1; i < len(offs); i++ {
+			if offs[i] <= offs[i-1] {
+				res.Contiguous = false
+			}
+		}
+	}
+	return
+}
+
 func recordSet(st state) map[string]string {
 	m := map[string]string{}
 	for k, vs := range st.Records {
@@ -286,8 +350,9 @@ func TestCrashPoints(t *testing.T) {
 			}
 		}
 		type result struct {
-			j  job
-			st state
+			j    job
+			st   state
+			post postResult
 		}
 		results := make([]result, len(jobs))
 		var wg sync.WaitGroup
@@ -299,6 +364,7 @@ func TestCrashPoints(t *testing.T) {
 				defer wg.Done()
 				defer func() { <-sem }()
 				var st state
+				var post postResult
 				func() {
 					defer func() {
 						if r := recover(); r != nil {
@@ -312,9 +378,14 @@ func TestCrashPoints(t *testing.T) {
 						return
 					}
 					st = readState(c.ListenAddrs(), w.groups)
+					if st.Err == "" {
+						// the recovered broker keeps working: two more acknowledged produces per partition of "t", then everything is
+						// read again from the same incarnation (positions derived during recovery must still address the files)
+						post = postLife(c.ListenAddrs(), w.groups, st)
+					}
 					c.Close()
 				}()
-				results[i] = result{j, st}
+				results[i] = result{j, st, post}
 			}()
 		}
 		wg.Wait()
@@ -405,6 +476,9 @@ func TestCrashPoints(t *testing.T) {
 				return x
 			}
 			missing, aborted, unknown, lostCommits = nn(missing), nn(aborted), nn(unknown), nn(lostCommits)
+			if res.post.Ran {
+				rec.Ev("after_recovery", "produced", res.post.Produced, "err", res.post.Err, "missing", nn(res.post.Missing), "contiguous", res.post.Contiguous)
+			}
 			rec.Ev("recovered", "acked", len(ackedProduce), "missing", missing, "aborted_visible", aborted, "unknown", unknown, "contiguous", contiguous, "lost_commits", lostCommits, "identical_after_clean_close", same,
 				"records", len(got))
 		}
